@@ -3,7 +3,7 @@ package rules
 func init() {
 	reg("C18", &PropSpec{
 		Rules:       []Rule{r("B2", RuleB2), r("NI", RuleNI("bannedDirectives")), r("OP1", RuleOP1)},
-		Explanation: "B2: directives are created at the call sites of the directive constructors (today one, in setCurrentDirective, shared by written, pasted and included directives); each such site, and every file-system call of core, is dominated by a bannedDirectives lookup (on the created kind / on INCLUDE) whose found branch returns the 'not allowed' error - so every occurrence of a banned kind, including INCLUDE, MACRO and PASTE, is refused before any file it names is touched. NI: every read of the option's set is such a reject-only lookup, so a project without banned kinds takes exactly the path it takes without the option (a sufficient argument for the second sentence). OP1: option closures store no captured map/slice/pointer into the core, so an option value reused across parses carries no state from one to the next.",
+		Explanation: "B2: directives are created at the call sites of the directive constructors (today one, in setCurrentDirective, shared by written, pasted and included directives); each such site, and every file-system call of core, is dominated by a bannedDirectives lookup (on the created kind / on INCLUDE) whose found branch returns the 'not allowed' error - so every occurrence of a banned kind, including INCLUDE, MACRO and PASTE, is refused before any file it names is touched. NI: every read of the option's set is such a reject-only lookup, so a project without banned kinds takes exactly the path it takes without the option (a sufficient argument for the second sentence). OP1: option closures store no captured map/slice/pointer into the core, so an option value reused across parses carries no state from one to the next. NI distinguishes sets the run fills from sets only options fill: the latter may only reject (no skip-or-do-once on them) and the constructor stores no element of its own.",
 		Trusted:     trustedCommon,
 	})
 }
